@@ -63,7 +63,9 @@ def run(code: Any, stack: List[Any]) -> Any:
         if isinstance(ins, Sym):  # opaque code block: one argument in, one result out, rest untouched
             if not stack:
                 raise Stuck('opaque code on empty stack')
-            stack = [('apply', ins.name, stack[0])] + stack[1:]
+            # the block may LOOK below its argument (DIP { DUP ; CAR } ; ADD ...): what it computes is a function of everything it is run on,
+            # so the stack underneath is part of the term - two expansions agree only if they hand the block the same stack
+            stack = [('apply', ins.name, stack[0], ('under',) + tuple(stack[1:]))] + stack[1:]
             continue
         if not isinstance(ins, dict) or 'prim' not in ins:
             raise Stuck(f'not an instruction: {ins}')
